@@ -36,9 +36,10 @@ pub fn run_spki(sc: &Value) -> Value {
 pub fn run_keytable(sc: &Value) -> Value {
     let repo = std::env::var("VERIF_REPO").unwrap_or_else(|_| "/repo".to_string());
     let mut pub0 = std::fs::read(format!("{}/tests/ed25519/ed25519-1.pub", repo)).unwrap();
-    let k0 = PublicKey::from_ed25519(pub0.clone()).unwrap();
+    let algs = Some(vec!["sha256".to_string(), "sha512".to_string()]);
+    let k0 = PublicKey::from_ed25519_with_keyid_hash_algorithms(pub0.clone(), algs.clone()).unwrap();
     pub0[0] ^= 1;
-    let k1 = PublicKey::from_ed25519(pub0).unwrap();
+    let k1 = PublicKey::from_ed25519_with_keyid_hash_algorithms(pub0, algs).unwrap();
     let keys = [k0, k1];
     let mut table = serde_json::Map::new();
     for (i, f) in sc["filed"].as_array().unwrap().iter().enumerate() { table.insert(f.as_str().unwrap().to_string(), serde_json::to_value(&keys[i]).unwrap()); }
